@@ -1,2 +1,4 @@
 def run(ctx):
-    return ""
+    from . import finalize_proofs
+
+    return finalize_proofs.run(ctx, "C11", lastcast=True, mask=False)
